@@ -5,7 +5,7 @@
           392 application ledgers, requests, allocations or state, 393 partition total / counters.
    Coverage is reported as two pseudo entries (steps validated, 100000001) and (steps total, 100000002). *)
 From Coq Require Import List ZArith NArith Bool.
-From YK Require Import Base.Res Core.Obs Core.Model.
+From YK Require Import Base.Res Core.Obs Core.Model Core.Model2.
 Import ListNotations.
 Open Scope N_scope.
 
@@ -56,7 +56,7 @@ Definition part_eq (m o : ostate) : bool :=
   ores_eqz (s_total m) (s_total o) && Z.eqb (s_nallocs m) (s_nallocs o).
 
 Definition model_step_check (deny : list (N * N)) (pre : ostate) (st : ostep) : option (list N) :=
-  match m_step deny pre st with
+  match m_step2 deny pre st with
   | None => None
   | Some m =>
       let o := st_obs st in
